@@ -284,14 +284,14 @@ class World:
         elif not proc.killed:
             self._schedule(proc)        # normal end of a proc: it still holds the baton
 
-    def kill(self, proc, drop_inflight=True):
+    def kill(self, proc, drop_inflight=True, drop_inbound=False):
         """Hard kill: sockets die first, then the thread unwinds with Killed (no finally block has any effect)."""
 
         if proc.state == 'done' or proc.killed:
             return
 
         proc.killed = True
-        self.net.proc_died(proc, drop_inflight)
+        self.net.proc_died(proc, drop_inflight, drop_inbound)
         proc.state = 'dying'
 
         if proc.thread is threading.current_thread():
